@@ -13,6 +13,9 @@ From TskVerif Require Import C01.InductProofs.
 From TskVerif Require Import C01.CountProofs.
 From TskVerif Require Import C01.QueryProofs.
 From TskVerif Require Import C01.EdgeProofs.
+From TskVerif Require Import C01.LinkProofs.
+From TskVerif Require Import C01.RepProofs.
+From TskVerif Require Import C01.TraversalProofs.
 Import ListNotations.
 Open Scope Z_scope.
 
@@ -243,6 +246,46 @@ Proof.
   destruct (Post x Hx) as [_ G]. apply G. exact Hu.
 Qed.
 
+Lemma links_consistent_top L ns es Ins Rem q :
+  valid_edgesb L ns es = true -> index_sorted es Ins Rem -> mk_tseq L ns es Ins Rem = Ok q ->
+  forall o, 1 <= o_thr o -> forall k t, tree_at_index q o k = Ok t ->
+  let N := zlen ns in
+  exists K : Z -> list Z,
+    (forall p, 0 <= p <= N ->
+       Chain t p (K p) /\ NoDup (K p) /\ get (t_nc t) p = Ok (zlen (K p)) /\
+       children_of t p = Ok (K p)) /\
+    (forall p c, 0 <= p < N -> (In c (K p) <-> 0 <= c < N /\ get (t_parent t) c = Ok p)) /\
+    (forall c, In c (K N) <->
+       0 <= c < N /\ get (t_parent t) c = Ok NULL /\
+       exists n, get (t_ns t) c = Ok n /\ o_thr o <= n).
+Proof.
+  intros HVb HI HQ o Hthr k t H.
+  exact (links_consistent_lemma L ns es Ins Rem q (valid_edgesb_spec _ _ _ HVb) HI HQ o Hthr k t H).
+Qed.
+
+Lemma preorder_correct_lemma L ns es Ins Rem q :
+  valid_edgesb L ns es = true -> index_sorted es Ins Rem -> mk_tseq L ns es Ins Rem = Ok q ->
+  forall o, 1 <= o_thr o -> forall k t, tree_at_index q o k = Ok t ->
+  let N := zlen ns in
+  exists K : Z -> list Z,
+    (forall p c, 0 <= p < N -> (In c (K p) <-> 0 <= c < N /\ get (t_parent t) c = Ok p)) /\
+    (forall c, In c (K N) <->
+       0 <= c < N /\ get (t_parent t) c = Ok NULL /\
+       exists n, get (t_ns t) c = Ok n /\ o_thr o <= n) /\
+    (forall p, 0 <= p <= N -> children_of t p = Ok (K p)) /\
+    forall root out, preorder_from N t root = Ok out ->
+      (root = -1 /\ exists ls, Forall2 (Pre K) (K N) ls /\ out = concat ls) \/
+      (0 <= root <= N /\ Pre K root out).
+Proof.
+  intros HVb HI HQ o Hthr k t H N.
+  pose proof (valid_edgesb_spec _ _ _ HVb) as HV.
+  destruct (rep_invariant L ns es Ins Rem q HV HI HQ o Hthr k t H) as [JC (K & LR & [O1 O2])].
+  destruct JC as (L0 & _).
+  exists K. split; [exact O1|]. split; [exact O2|]. split.
+  - intros p Hp. apply (children_of_rep ns o t K p LR L0 Hp).
+  - intros root out Hr. apply (preorder_from_spec (zlen ns) t K LR L0 ltac:(unfold zlen; lia) root out Hr).
+Qed.
+
 (* --- the same for the load path (tsk_table_collection_build_index) --- *)
 
 Lemma load_inv L ns es q : load L ns es = Ok q ->
@@ -310,4 +353,23 @@ Lemma load_breakpoints_lemma L ns es q :
 Proof.
   intros HV HL. destruct (load_inv _ _ _ _ HL) as (Ins & Rem & EB & EQ).
   eapply breakpoints_partition_lemma; eauto using build_index_sorted_b.
+Qed.
+
+Example ex_chain :
+  exists q t, load 6 ex_nodes ex_edges = Ok q /\ tree_at_index q ex_opts 1 = Ok t /\
+    Chain t 4 [3; 1] /\ Chain t 7 [2; 6; 4] /\ children_of t 7 = Ok [2; 6; 4].
+Proof.
+  eexists. eexists. split; [vm_compute; reflexivity|]. split; [vm_compute; reflexivity|].
+  split; [|split]; [| |reflexivity]; unfold Chain; simpl; unfold nxt, prv, NULL; simpl;
+    repeat split; try reflexivity; discriminate.
+Qed.
+
+Example ex_views :
+  exists q t, load 6 ex_nodes ex_edges = Ok q /\ tree_at_index q ex_opts 1 = Ok t /\
+    preorder_from 7 t (-1) = Ok [2; 6; 4; 3; 0; 1] /\ preorder_from 7 t 7 = Ok [7; 2; 6; 4; 3; 0; 1] /\
+    t_edge t = [0; 2; -1; 3; -1; -1; -1; -1] /\ mrca q t 0 1 = Ok 4 /\ depth 7 t 0 = Ok 2 /\
+    t_ns t = [1; 1; 1; 1; 2; 0; 1; 4] /\ t_nt t = [1; 0; 1; 1; 1; 0; 0; 2].
+Proof.
+  eexists. eexists. split; [vm_compute; reflexivity|]. split; [vm_compute; reflexivity|].
+  repeat split; vm_compute; reflexivity.
 Qed.
